@@ -19,7 +19,9 @@ TECHNIQUE = "sibling cross-check of the two tree-builder back-ends against base.
 CLAIM = ("Both back-ends implement the complete primitive interface with the base signatures; every primitive that attaches or "
          "detaches a node maintains the parent pointer; in the ElementTree back-end the shadow child list that "
          "reparentChildren/removeChild consult is updated on every path that updates the real child list -- the structural "
-         "reason one back-end could lose or misplace nodes that the other keeps.")
+         "reason one back-end could lose or misplace nodes that the other keeps; etree text is appended, never "
+         "overwritten; the childNodes property's list is not mutated in place; namespaced attribute keys use their namespace "
+         "in both back-ends.")
 NOT_DECIDED = "text placement (.text/.tail arithmetic), fragment extraction, equality of the resulting trees as such."
 MODULES = ["treebuilders/base.py", "treebuilders/etree.py", "treebuilders/dom.py", "treebuilders/__init__.py"]
 
